@@ -1,7 +1,7 @@
 -------------------------- MODULE Trace_FrameImpl ---------------------------
 (***************************************************************************)
 (* Code ~ Impl for the reader: the Read calls recorded from real Decode /  *)
-(* DecodeChained calls are replayed through FrameImpl.  Every logged call  *)
+(* DecodeChained / CheckIntegrity calls are replayed through FrameImpl.  Every logged call  *)
 (* <<req, n, e>> must be exactly the request FrameImpl makes in its        *)
 (* current state (the environment's answer is the logged one); the         *)
 (* parser's consumption (Take) is a silent step.  A disagreement is model  *)
@@ -19,6 +19,7 @@ tvars == << ti, l, fset, Avail, Fault, pc, k, fetched, want, ui, n, buf, ended, 
 
 FileSets == [i \in 1..Len(Traces) |-> Traces[i].files]
 BufSize == 4096
+CopyBuf == 32768
 DataWithErr == TRUE
 PreFixChainRule == FALSE
 
@@ -43,7 +44,7 @@ Silent == F!Take /\ UNCHANGED << ti, l, fset, Avail, Fault >>
 \* the read action of the model in its current state, answered as logged
 Ans == [got |-> Reads[l][2], end |-> Reads[l][3] # 0]
 Logged == /\ l <= Len(Reads)
-          /\ (F!ReadSizeA(Ans) \/ F!ReadHdrA(Ans) \/ (pc = "unit" /\ n # F!Limit /\ F!FillA(Ans)) \/ F!ReadCRCA(Ans) \/ F!ProbeA(Ans))
+          /\ (F!ReadSizeA(Ans) \/ F!ReadHdrA(Ans) \/ (pc = "unit" /\ n # F!Limit /\ F!FillA(Ans)) \/ F!CopyA(Ans) \/ F!ReadCRCA(Ans) \/ F!ProbeA(Ans))
           /\ lastreq'[2] = Reads[l][1]
           /\ l' = l + 1
           /\ UNCHANGED << ti, fset, Avail, Fault >>
